@@ -60,3 +60,122 @@ def ref_pcapng_payloads(blob):
         if p is not None:
             out.append(bytes(p))
     return out
+
+
+# ---- hex text -----------------------------------------------------------------------------------
+HEX_WS = b" \t\n\r\x0b\x0c"
+
+
+def write_hex(data, rng, noise=True):
+    """hex rendering with seeded layout noise: case, whitespace between and inside pairs"""
+    out = bytearray()
+    style = rng.choice(("plain", "spaced", "lines", "noisy")) if noise else "plain"
+    upper = rng.random() < 0.5
+    mixed = rng.random() < 0.2
+    for i, b in enumerate(data):
+        s = "%02x" % b
+        if mixed:
+            s = "".join(c.upper() if rng.random() < 0.5 else c for c in s)
+        elif upper:
+            s = s.upper()
+        hi, lo = s[0].encode(), s[1].encode()
+        out += hi
+        if style == "noisy" and rng.random() < 0.15:
+            out += bytes(rng.choice(HEX_WS) for _ in range(rng.randint(1, 2)))
+        out += lo
+        if style == "spaced":
+            out += b" "
+        elif style == "lines":
+            out += b"\n" if (i + 1) % 16 == 0 else b" "
+        elif style == "noisy" and rng.random() < 0.3:
+            out += bytes(rng.choice(HEX_WS) for _ in range(rng.randint(1, 3)))
+    if noise and rng.random() < 0.5:
+        out += rng.choice((b"\n", b"\r\n", b" ", b"\n\n"))
+    return bytes(out)
+
+
+def ref_hex_read(text):
+    """reference reader: whitespace is skipped anywhere, the rest must be hex digit pairs.
+    -> (bytes, ends, error) ; ends[j] = index just after the second digit of byte j"""
+    digits = b"0123456789abcdefABCDEF"
+    out, ends, cur = bytearray(), [], []
+    for i, c in enumerate(text):
+        if c in HEX_WS:
+            continue
+        if c not in digits:
+            return bytes(out), ends, "non-hex character %r at %d" % (chr(c), i)
+        cur.append(c)
+        if len(cur) == 2:
+            out.append(int(bytes(cur), 16))
+            ends.append(i + 1)
+            cur = []
+    if cur:
+        return bytes(out), ends, "odd number of digits"
+    return bytes(out), ends, None
+
+
+def ref_hex_pair_ends(text):
+    return ref_hex_read(text)[1]
+
+
+# ---- swtpm log ----------------------------------------------------------------------------------
+def write_swtpm_log(data, bounds, rng, noise=True):
+    """swtpm log in its documented layout: free text, then control-channel and SWTPM_IO sections of
+    upper-case hex lines.  The control channel is a second writer interleaved by the seeded choice."""
+    out = bytearray()
+    if noise and rng.random() < 0.5:
+        out += rng.choice((b"swtpm starting up\n", b"Log level 20\nlistening on port 2321\n", b"# capture\n\n"))
+    eol = b"\r\n" if (noise and rng.random() < 0.2) else b"\n"
+    width = rng.choice((16, 16, 8, 32)) if noise else 16
+
+    def section(marker, payload):
+        out.extend(marker + b": length %d" % len(payload) + eol)
+        for i in range(0, len(payload), width):
+            out.extend(b" ".join(b"%02X" % b for b in payload[i:i + width]) + (b" " if noise and rng.random() < 0.3 else b"") + eol)
+
+    def ctrl():
+        if noise and rng.random() < 0.5:
+            section(b"Ctrl Cmd", bytes(rng.randrange(256) for _ in range(rng.choice((4, 4, 8)))))
+            section(b"Ctrl Rsp", bytes(rng.randrange(256) for _ in range(rng.choice((4, 8, 12)))))
+
+    b = sorted(set([0] + list(bounds) + [len(data)]))
+    ctrl()
+    for j, (a, e) in enumerate(zip(b, b[1:])):
+        if e > a:
+            section(b"SWTPM_IO_Read" if j % 2 == 0 else b"SWTPM_IO_Write", data[a:e])
+            ctrl()
+    return bytes(out)
+
+
+def ref_swtpm_read(text):
+    """reference reader (line based): payload lines of SWTPM_IO sections count, everything else is
+    ignored.  -> (bytes, ends) ; ends[j] = index just after the second digit of byte j"""
+    out, ends = bytearray(), []
+    pos = 0
+    in_io = False
+    for line in text.split(b"\n"):
+        start = pos
+        pos += len(line) + 1
+        body = line.rstrip(b"\r")
+        if b"SWTPM_IO" in body:
+            in_io = True
+            continue
+        if body.startswith(b"Ctrl"):
+            in_io = False
+            continue
+        if not in_io:
+            continue
+        i = 0
+        while i < len(body):
+            if body[i:i + 1] in (b" ", b"\r"):
+                i += 1
+                continue
+            pair = body[i:i + 2]
+            out.append(int(pair, 16))
+            ends.append(start + i + 2)
+            i += 2
+    return bytes(out), ends
+
+
+def ref_swtpm_pair_ends(text):
+    return ref_swtpm_read(text)[1]
